@@ -78,14 +78,7 @@ func runSolver(s Solver, query string, dir, tag string, timeout time.Duration, s
 // then all solvers raced.
 func Decide(query, dir, tag string, timeout time.Duration, seed int) Verdict {
 	query = destring(query)
-	quick := 3 * time.Second
-	if quick > timeout {
-		quick = timeout
-	}
-	v := runSolver(Solvers[0], query, dir, tag, quick, seed)
-	if v.Status == "unsat" || v.Status == "sat" {
-		return v
-	}
+	var v Verdict
 	type r struct{ v Verdict }
 	ch := make(chan Verdict, len(Solvers))
 	for _, s := range Solvers {
